@@ -367,7 +367,7 @@ func runRange(c *hx.Ctx, or *hx.Oracle, rc rangeCase, verbose bool) {
 			c.Hist["range:certified:"+strings.Fields(cg+" ?")[0]]++
 			if cg != g {
 				c.Hist["range:accepted-without-certificate:"+rc.Tamper]++
-				if ct.claimTrue(rc.First, rc.Keys, rc.Values, strings.HasSuffix(g, "true")) {
+				if len(rc.Muts) == 0 && ct.claimTrue(rc.First, rc.Keys, rc.Values, strings.HasSuffix(g, "true")) {
 					// a true statement accepted although the certificate fails: the certificate would be too strong
 					c.Violation("model:certificate-rejects-true-claim", fmt.Sprintf("%s %s: code %s certified %s", rc.Shape, rc.Tamper, g, cg), rc, true)
 				}
